@@ -310,6 +310,13 @@ def replay(res: C.Result, path):
     if not case:
         print("replay: no concrete input")
         return 1
+    if case.get("variant"):
+        # the second driver (logger re-use, observers used by hand)
+        cc = dict(case, dir=str(C.WORK / "C16_replay"))
+        p2 = subprocess.run([C.PY, "-W", "ignore", str(C.VERIF / "harness" / "impl" / "c16b.py")], input=json.dumps(cc), capture_output=True, text=True, env=C.IMPL_ENV, timeout=600, cwd="/")
+        print(p2.stdout[:3000] or p2.stderr[-1500:])
+        shutil.rmtree(C.WORK / "C16_replay", ignore_errors=True)
+        return 0
     cc = dict(case, dir=str(C.WORK / "C16_replay"), kill_at=k)
     run_driver(cc)
     for f in ("run.log", "run.xyz", "run.json"):
